@@ -94,6 +94,11 @@ func (s *c13scn) record(op string, locked bool, extra map[string]any) {
 		"tokens": mu6(tokens), "cap": int64(capacity), "rate": mu6(rate), "ratem": int64(math.Round(rate * 1e3)),
 		"ideal": mu6(ideal), "idealm": int64(math.Round(ideal * 1e3)),
 		"lr": s.ms(lastRefill), "pen": s.ms(pen), "fc": fc}
+	if op == "take" {
+		// the instant the bucket itself used for this release (it refilled in the same critical section): with several
+		// waiters the scenario's clock may already have been moved on by another waiter's poll
+		ev["t"] = s.ms(lastRefill)
+	}
 	for k, v := range extra {
 		ev[k] = v
 	}
@@ -262,6 +267,46 @@ func c13(args []string) error {
 					}
 				}()
 			}
+			w.Wait()
+		})
+	}
+	// answers of requests that were already in flight arrive while the penalty runs: each one counts
+	for i := 0; i < 4+n/10; i++ {
+		id++
+		rng := vh.Rand(int64(1600 + i))
+		s := mk(id, "inflight", caps[rng.Intn(len(caps))], ideals[rng.Intn(len(ideals))], 1000, false)
+		run(s, func(s *c13scn) {
+			for round := 0; round < 3; round++ {
+				s.tb.Wait()
+				for k := 0; k < 2+rng.Intn(3); k++ {
+					c := pen[rng.Intn(len(pen))]
+					s.tb.AdjustOnFailureForVerif(c)
+					s.record("fail", false, map[string]any{"code": c})
+					s.clock.Add(int64(500 + rng.Intn(4000))) // still inside the penalty just imposed
+				}
+				s.tb.Wait()
+				s.tb.OnSuccessForVerif()
+				s.record("succ", false, nil)
+			}
+		})
+	}
+	// a crowd of waiters released at the same instant on a bucket that holds one token: the check and the
+	// decrement of Wait() race only when several goroutines are inside it at once
+	for i := 0; i < 2*n; i++ {
+		id++
+		s := mk(id, "crowd", 1, 20, 50, false)
+		run(s, func(s *c13scn) {
+			var w sync.WaitGroup
+			start := make(chan struct{})
+			for g := 0; g < 24; g++ {
+				w.Add(1)
+				go func() {
+					defer w.Done()
+					<-start
+					s.tb.Wait()
+				}()
+			}
+			close(start)
 			w.Wait()
 		})
 	}
